@@ -127,7 +127,7 @@ func TwinBatch(a *Sess, op *Op, mode string) bool {
 		} else {
 			var f ecs.Filter
 			if op.Slot != nil {
-				f = &b.regs[*op.Slot].cached
+				f, _ = b.filterOf(op)
 			} else {
 				f = spec.Build(b.IDs, entOf)
 			}
